@@ -668,54 +668,65 @@ end AslModel.Dis.A6800
 
 namespace AslModel.Dis
 
-/-! ### `RetrieveData` of deco68.c -/
+/-! ### `RetrieveData` of deco68.c (since the repair bdcaec7: no continuation at address 0 behind $FFFF) -/
 
-theorem M6800.retrieveData_one (img : Image) (lower : Bool) (a : Nat) (ha : a ≠ 0x10000) :
+/-- a request that reaches beyond the end of the 64K address space fails with the message, whatever the image holds -/
+theorem M6800.retrieveData_beyond (img : Image) (lower : Bool) (a count : Nat) (h : a + count > 0x10000) :
+    M6800.retrieveData img lower a count = (none, ["cannot retrieve instruction arg @ 0x" ++ hexString lower a 0]) := by
+  simp [M6800.retrieveData, h]
+
+/-- one byte below the end of the address space: `RetrieveData` is `RetrieveCodeFromChunkList` (for `a ≥ 0x10000` the result is the
+failure message: `retrieveData_beyond`) -/
+theorem M6800.retrieveData_one (img : Image) (lower : Bool) (a : Nat) (ha : a < 0x10000) :
     M6800.retrieveData img lower a 1 =
       match retrieve img a 1 with
       | none => (none, ["cannot retrieve instruction arg @ 0x" ++ hexString lower a 0])
       | some bs => (some (bs.map UInt8.toNat), []) := by
-  have htrans : (if a ≤ 0x10000 then min 1 (0x10000 - a) else 1) = 1 := by
-    split <;> omega
-  simp only [M6800.retrieveData, M6800.retrieveDataF, htrans]
-  cases retrieve img a 1 <;> simp
+  have : ¬ (a + 1 > 0x10000) := by omega
+  simp only [M6800.retrieveData, this, if_false]
+  cases retrieve img a 1 <;> rfl
 
-/-- a request that `RetrieveData` answers lies inside the loaded image, provided it does not run through the end of the 64K address
-space (where `RetrieveData` continues at address 0) - which is the case when it ends at or below 0x10000, and also when address 0 is
-no byte of the image (then the continuation fails) -/
-theorem M6800.retrieveData_inImage (img : Image) (lower : Bool) (a count : Nat) (ds : List Nat) (e : List String)
-    (h : M6800.retrieveData img lower a count = (some ds, e))
-    (hw : a + count ≤ 0x10000 ∨ ¬ inImage img 0) :
-    ∀ k, k < count → inImage img (a + k) := by
-  intro k hk
-  have hc : count ≠ 0 := by omega
+/-- no byte wanted, at or below the end of the address space: success without a fetch (the C code does not call `RetrieveData` at
+all for the implicit forms; for a data line of size 1 it calls it with `Count` 0) -/
+theorem M6800.retrieveData_zero (img : Image) (lower : Bool) (a : Nat) (ha : a ≤ 0x10000) :
+    M6800.retrieveData img lower a 0 = (some [], []) := by
+  simp [M6800.retrieveData, retrieve, retrieveF]
+  exact ha
+
+/-- a request that `RetrieveData` answers ends inside the address space, was answered by `RetrieveCodeFromChunkList` with exactly
+these bytes, and no message was written -/
+theorem M6800.retrieveData_some (img : Image) (lower : Bool) (a count : Nat) (ds : List Nat) (e : List String)
+    (h : M6800.retrieveData img lower a count = (some ds, e)) :
+    a + count ≤ 0x10000 ∧ e = [] ∧ ∃ bs, retrieve img a count = some bs ∧ ds = bs.map UInt8.toNat := by
   unfold M6800.retrieveData at h
-  rw [show count + 2 = (count + 1) + 1 from rfl] at h
-  unfold M6800.retrieveDataF at h
-  simp only [hc, if_false] at h
-  generalize htr : (if a ≤ 0x10000 then min count (0x10000 - a) else count) = trans at h
-  cases hr : retrieve img a trans with
-  | none => simp [hr] at h
-  | some bs =>
-    have hin := (retrieve_some img a trans bs hr).2
-    by_cases hall : trans = count
-    · exact hin k (by omega)
-    · -- the request is cut at 0x10000 and continued at address 0
-      exfalso
-      have hle : a ≤ 0x10000 := by
-        by_cases hle : a ≤ 0x10000
-        · exact hle
-        · simp [hle] at htr; omega
-      simp only [hle, if_true] at htr
-      have hlt : trans < count := by omega
-      have h0 : (a + trans) % 0x10000 = 0 := by omega
-      rcases hw with hw | hw
-      · omega
-      · simp only [hr, h0] at h
-        unfold M6800.retrieveDataF at h
-        have hc2 : count - trans ≠ 0 := by omega
-        simp only [hc2, if_false, Nat.zero_le, if_true] at h
-        have hn := retrieve_none_of_not_inImage img 0 (min (count - trans) (0x10000 - 0)) (by omega) hw
-        simp [hn] at h
+  by_cases hb : a + count > 0x10000
+  · simp [hb] at h
+  · simp only [hb, if_false] at h
+    cases hr : retrieve img a count with
+    | none => simp [hr] at h
+    | some bs =>
+      simp only [hr, Prod.mk.injEq, Option.some.injEq] at h
+      exact ⟨by omega, h.2.symm, bs, rfl, h.1.symm⟩
+
+/-- a failed request writes exactly one message line -/
+theorem M6800.retrieveData_none_msg (img : Image) (lower : Bool) (a count : Nat) (e : List String)
+    (h : M6800.retrieveData img lower a count = (none, e)) :
+    e = ["cannot retrieve instruction arg @ 0x" ++ hexString lower a 0] := by
+  unfold M6800.retrieveData at h
+  by_cases hb : a + count > 0x10000
+  · simp only [hb, if_true, Prod.mk.injEq, true_and] at h; exact h.symm
+  · simp only [hb, if_false] at h
+    cases hr : retrieve img a count with
+    | none => simp only [hr, Prod.mk.injEq, true_and] at h; exact h.symm
+    | some bs => simp [hr] at h
+
+/-- a request that `RetrieveData` answers lies inside the loaded image and inside the 64K address space - for every image (the
+former hypothesis "the request does not run through $FFFF, or address 0 is not loaded" is gone with the wrap) -/
+theorem M6800.retrieveData_inImage (img : Image) (lower : Bool) (a count : Nat) (ds : List Nat) (e : List String)
+    (h : M6800.retrieveData img lower a count = (some ds, e)) :
+    ∀ k, k < count → inImage img (a + k) ∧ a + k < 0x10000 := by
+  intro k hk
+  obtain ⟨hle, _, bs, hr, _⟩ := M6800.retrieveData_some img lower a count ds e h
+  exact ⟨(retrieve_some img a count bs hr).2 k hk, by omega⟩
 
 end AslModel.Dis
